@@ -105,13 +105,111 @@ class StackIndex(Unit):
         ctx.ensure("len(stacked graph) = number of episodes", z3.BoolVal(n == 2))
 
 
-def topo(ctx):
-    """a -> b (shadow-named input), b -> c, c -> a, a -> c; vertices/edges carry opaque payloads"""
+class ExperimentOps(Unit):
+    """ExperimentRecord.to_graph / filter / stack: per-episode conversion in episode order, stacked by Graph.stack; stacking pads with -1 (what to_graph expects)"""
+    name = "ExperimentRecord.to_graph / filter / stack"
+    target = BASE + "::ExperimentRecord.to_graph"
+    props = ("C14", "C01")
+
+    def run(self, ctx):
+        ex = ctx.ex
+        G = [z3.Const(f"graph_of_episode{i}", Leaf) for i in range(3)]
+        F = z3.Function("episode_filter", Leaf, Leaf, BOOL, Leaf)
+        calls = []
+
+        def mk_ep(i):
+            return Rec("EpisodeRecord", dict(tag=z3.Const(f"episode{i}", Leaf), to_graph=lambda ex_, i=i: G[i],
+                                             filter=lambda ex_, nodes, filter_connections=False, i=i: (calls.append((i, nodes, filter_connections)), F(z3.Const(f"episode{i}", Leaf), nodes, toz(filter_connections)))[1]), module=None)
+        eps = [mk_ep(i) for i in range(3)]
+        xr = Rec("ExperimentRecord", dict(episodes=eps), module=BASE, frozen=True)
+        stacked = []
+        cref = ex.module_global(ctx.repo.module(BASE), "Graph")
+        ex.summaries[("Graph", "stack")] = lambda ex_, o, a, k, node: (stacked.append(a[0]), z3.Const("stacked_graph", Leaf))[1]
+        out = ctx.call(self_obj=xr)
+        ctx.ensure("C14 to_graph converts every episode once, keeps the episode order, and stacks the per-episode graphs with Graph.stack (its padding contract applies)",
+                   z3.BoolVal(len(stacked) == 1 and isinstance(stacked[0], list) and len(stacked[0]) == 3 and all(stacked[0][i] is G[i] for i in range(3)) and is_sym(out) and z3.eq(out, z3.Const("stacked_graph", Leaf))))
+        nodes, flag = z3.Const("selection", Leaf), z3.Bool("filter_connections")
+        fx = ex.call(ex.getattr(xr, "filter"), [nodes], dict(filter_connections=flag))
+        ok = isinstance(fx, Rec) and fx.cls == "ExperimentRecord" and isinstance(fx.f["episodes"], list) and len(fx.f["episodes"]) == 3
+        ctx.ensure("C14 filtering an experiment filters every episode with the same selection and flag, in episode order (the episode-level contract applies to each)",
+                   z3.And(z3.BoolVal(ok and [c[0] for c in calls] == [0, 1, 2] and all(c[1] is nodes for c in calls)),
+                          *[toz(fx.f["episodes"][i]) == F(z3.Const(f"episode{i}", Leaf), nodes, flag) for i in range(3)]) if ok else z3.BoolVal(False))
+        fills = []
+        xr2 = Rec("ExperimentRecord", dict(episodes=eps, _padded_stack=lambda ex_, fill_value=None: (fills.append(fill_value), z3.Const("padded", Leaf))[1]), module=BASE)
+        ex.call(ex.getattr(xr2, "stack"), [], {})
+        ex.call(ex.getattr(xr2, "stack"), [], dict(method="padded"))
+        ctx.ensure("C14 stacking records pads with -1 (the value to_graph and to_networkx treat as 'no vertex / no message')", z3.BoolVal(fills == [-1, -1]))
+
+
+class RecordPad(Unit):
+    """ExperimentRecord._padded_stack: equal-length episodes are stacked as they are; ragged ones are padded AT THE END with the fill value up to the longest episode"""
+    name = "ExperimentRecord._padded_stack"
+    target = BASE + "::ExperimentRecord._padded_stack"
+    props = ("C14",)
+
+    def configs(self):
+        yield "2 episodes", dict(e=2)
+        yield "3 episodes", dict(e=3)
+
+    def run(self, ctx):
+        ex = ctx.ex
+        np_models(ex)
+        onp = ex.lib.ns["numpy"]
+
+        def array(ex_, x, *a, **k):
+            ex_.assumptions_used.add("onp.array(rows) stacks equally long rows and raises ValueError for ragged ones (numpy >= 1.24)")
+            rows = list(x)
+            if not rows or not all(isinstance(r, Arr) for r in rows):
+                raise Unsupported("onp.array of something else than rows")
+            same = z3.And([r.n == rows[0].n for r in rows[1:]]) if len(rows) > 1 else z3.BoolVal(True)
+            if ex_.decide(ex_.truth(same)):
+                return Stacked(rows)
+            raise RaiseEx("ValueError", None)
+        saved = onp.entries.get("array")
+        onp.entries["array"] = array
+        E = ctx.cfg["e"]
+        lens = [z3.Int(f"len{i}") for i in range(E)]
+        for l in lens:
+            ctx.require(l >= 0)
+        fill = z3.Int("fill_value")
+        rows = {k: [Arr.fresh(f"{k}.episode{i}", INT, lens[i]) for i in range(E)] for k in ("seq", "ts")}
+        eps = [Rec("EpisodeRecord", dict(nodes={"a": Rec("StepRecord", dict(seq=rows["seq"][i], ts=rows["ts"][i]), module=BASE, frozen=True)}), module=BASE, frozen=True) for i in range(E)]
+        xr = Rec("ExperimentRecord", dict(episodes=eps), module=BASE, frozen=True)
+        try:
+            out = ctx.call(self_obj=xr, args=[fill])
+        finally:
+            if saved is not None:
+                onp.entries["array"] = saved
+        ok = isinstance(out, Rec) and out.cls == "EpisodeRecord" and isinstance(out.f["nodes"].get("a"), Rec)
+        ctx.ensure("the stacked record has the structure of one episode", z3.BoolVal(ok))
+        if not ok:
+            return
+        j = z3.Int("j!rp")
+        for k in ("seq", "ts"):
+            st = out.f["nodes"]["a"].f[k]
+            okk = isinstance(st, Stacked) and len(st.rows) == E
+            ctx.ensure(f"{k}: one row per episode, in episode order", z3.BoolVal(okk))
+            if not okk:
+                continue
+            mx = st.rows[0].n
+            ctx.ensure(f"{k}: all rows have the length of the longest episode", z3.And([r.n == mx for r in st.rows] + [mx >= l for l in lens] + [z3.Or([mx == l for l in lens])]))
+            for i in range(E):
+                ctx.ensure(f"C14 {k}, episode {i}: its own entries come first, unchanged; the padding is the fill value",
+                           z3.ForAll([j], z3.Implies(z3.And(0 <= j, j < mx), z3.Select(st.rows[i].a, j) == z3.If(j < lens[i], z3.Select(rows[k][i].a, j), fill))))
+
+
+def topo(ctx, undeclared=()):
+    """a -> b (shadow-named input), b -> c, c -> a, a -> c; vertices/edges carry opaque payloads.
+    undeclared: recorded connections that the node objects handed to filter() do NOT declare (a selection of connections, not only of nodes)"""
     a, b, c = mk_node("a"), mk_node("b"), mk_node("c")
-    mk_conn(b, a, "a_shadow", "ab")
-    mk_conn(c, b, "b", "bc")
-    mk_conn(a, c, "c", "ca")
-    mk_conn(c, a, "a", "ac")
+    if ("a", "b") not in undeclared:
+        mk_conn(b, a, "a_shadow", "ab")
+    if ("b", "c") not in undeclared:
+        mk_conn(c, b, "b", "bc")
+    if ("c", "a") not in undeclared:
+        mk_conn(a, c, "c", "ca")
+    if ("a", "c") not in undeclared:
+        mk_conn(c, a, "a", "ac")
     return {"a": a, "b": b, "c": c}, [("a", "b"), ("b", "c"), ("c", "a"), ("a", "c")]
 
 
@@ -125,9 +223,13 @@ class GraphFilter(Unit):
         for flag in (True, False):
             for sub in (("a",), ("a", "b"), ("b", "c"), ("a", "c"), ("a", "b", "c")):
                 yield f"filter_edges={int(flag)},nodes={'+'.join(sub)}", dict(flag=flag, sub=sub)
+            # the selection declares only part of the connections the graph holds (fan-out a -> b, a -> c with a -> c not declared; and the other way round)
+            yield f"filter_edges={int(flag)},nodes=a+b+c,a->c not declared", dict(flag=flag, sub=("a", "b", "c"), undeclared=(("a", "c"),))
+            yield f"filter_edges={int(flag)},nodes=a+b+c,a->b and c->a not declared", dict(flag=flag, sub=("a", "b", "c"), undeclared=(("a", "b"), ("c", "a")))
 
     def run(self, ctx):
-        nodes, conns = topo(ctx)
+        und = set(ctx.cfg.get("undeclared", ()))
+        nodes, conns = topo(ctx, und)
         verts = {k: z3.Const(f"vertex.{k}", Leaf) for k in ("a", "b", "c", "extra")}
         edges = {k: z3.Const(f"edge.{k[0]}{k[1]}", Leaf) for k in conns + [("extra", "a")]}
         g = Rec("Graph", dict(vertices=dict(verts), edges=dict(edges)), module=BASE, frozen=True)
@@ -138,9 +240,9 @@ class GraphFilter(Unit):
         if not ok:
             return
         want_v = set(ctx.cfg["sub"])
-        want_e = {(u, v) for (u, v) in conns if u in want_v and v in want_v}
+        want_e = {(u, v) for (u, v) in conns if u in want_v and v in want_v and not (ctx.cfg["flag"] and (u, v) in und)}
         ctx.ensure("C14 the filtered graph contains precisely the selected nodes, with their vertices unchanged", z3.BoolVal(set(out.f["vertices"]) == want_v and all(out.f["vertices"][k] is verts[k] for k in want_v)))
-        ctx.ensure("C14 the filtered graph contains precisely the connections among the selected nodes (also those made with a shadow input name), unchanged",
+        ctx.ensure("C14 the filtered graph contains precisely the connections among the selected nodes (also those made with a shadow input name; with filter_edges only those the selection declares), unchanged",
                    z3.BoolVal(set(out.f["edges"]) == want_e and all(out.f["edges"][k] is edges[k] for k in want_e)))
         ctx.ensure("the original graph is not modified", z3.BoolVal(set(g.f["vertices"]) == set(verts) and set(g.f["edges"]) == set(edges)))
 
@@ -154,9 +256,12 @@ class RecordFilter(Unit):
         for flag in (True, False):
             for sub in (("a", "b"), ("b", "c"), ("a", "b", "c")):
                 yield f"filter_connections={int(flag)},nodes={'+'.join(sub)}", dict(flag=flag, sub=sub)
+            yield f"filter_connections={int(flag)},nodes=a+b+c,a->c not declared", dict(flag=flag, sub=("a", "b", "c"), undeclared=(("a", "c"),))
+            yield f"filter_connections={int(flag)},nodes=a+b+c,a->b and c->a not declared", dict(flag=flag, sub=("a", "b", "c"), undeclared=(("a", "b"), ("c", "a")))
 
     def run(self, ctx):
-        nodes, conns = topo(ctx)
+        und = set(ctx.cfg.get("undeclared", ()))
+        nodes, conns = topo(ctx, und)
 
         def nrec(name):
             ins = {u: z3.Const(f"input_record.{u}{name}", Leaf) for (u, v) in conns if v == name}
@@ -171,9 +276,9 @@ class RecordFilter(Unit):
         if not ok:
             return
         for n2 in want_v:
-            want_in = {u for (u, v) in conns if v == n2 and u in want_v}
+            want_in = {u for (u, v) in conns if v == n2 and u in want_v and not (ctx.cfg["flag"] and (u, v) in und)}
             got = out.f["nodes"][n2]
-            ctx.ensure(f"C14 node {n2}: precisely the connections from selected senders are kept (inputs and info.inputs), step data untouched",
+            ctx.ensure(f"C14 node {n2}: precisely the connections from selected senders (with filter_connections: those the selection declares INTO THIS NODE) are kept (inputs and info.inputs), step data untouched",
                        z3.BoolVal(set(got.f["inputs"]) == want_in and set(got.f["info"].f["inputs"]) == want_in and got.f["steps"] is rec.f["nodes"][n2].f["steps"]
                                   and all(got.f["inputs"][u] is rec.f["nodes"][n2].f["inputs"][u] for u in want_in)))
 
@@ -205,7 +310,8 @@ class RecordToGraph(Unit):
                 ctx.ensure(f"C14 edges {u}->{v2} carry the recorded sent / consumed sequence numbers and receive times", z3.And(toz(aw.same(e.f["seq_out"], m.f["seq_out"])), toz(aw.same(e.f["seq_in"], m.f["seq_in"])), toz(aw.same(e.f["ts_recv"], m.f["ts_recv"]))))
 
 
-UNITS = [StackPad(), StackIndex(), GraphFilter(), RecordFilter(), RecordToGraph()]
+from .c14_nx import ToNetworkx
+UNITS = [StackPad(), StackIndex(), GraphFilter(), RecordFilter(), RecordToGraph(), ExperimentOps(), RecordPad(), ToNetworkx()]
 
 
 def check(tier, seed):
@@ -217,7 +323,8 @@ def check(tier, seed):
                                           "an episode extracted from Graph.stack must give the same networkx graph as the original episode; records of real nodes with shadow-named connections converted by to_graph and filtered "
                                           "(Graph.filter, EpisodeRecord.filter, every subset, both flags) must keep precisely the selected nodes and the connections among them")],
                  assumptions=["filter / to_graph are analysed on an enumerated topology (3 nodes, shadow-named connection, all listed subsets) with symbolic payloads: bounded in topology",
-                              "to_networkx_graph (loops over numpy arrays, networkx) is covered by the bounded stand-in only"])
+                              "networkx.DiGraph is modelled by its abstract state (vertex set with attributes, edge set with attributes; add_edge creates missing endpoints); vertex names f'{kind}_{seq}' are kept as the pair (kind, seq); "
+                              "to_networkx_graph is proved for two node kinds and one / two connections with arrays of any length (and re-checked on random ragged graphs by the bounded stand-in)"])
     code = check_property("C14", UNITS, tier, seed, extra=extra)
     if lines:
         for l in lines:
